@@ -11,6 +11,7 @@ import (
 	"context"
 	"encoding/xml"
 	"errors"
+	"fmt"
 	"io"
 
 	"mellium.im/xmlstream"
@@ -74,7 +75,11 @@ func (c Command) ExecuteIQ(ctx context.Context, iq stanza.IQ, payload xml.TokenR
 	if err != nil {
 		return resp, nil, err
 	}
-	start := t.(xml.StartElement)
+	start, ok := t.(xml.StartElement)
+	if !ok {
+		err = fmt.Errorf("commands: expected IQ start token, got %T", t)
+		return resp, nil, err
+	}
 	respIQ, err := stanza.UnmarshalIQError(respPayload, start)
 	if err != nil {
 		return resp, nil, err
@@ -84,7 +89,11 @@ func (c Command) ExecuteIQ(ctx context.Context, iq stanza.IQ, payload xml.TokenR
 	if err != nil {
 		return resp, nil, err
 	}
-	start = t.(xml.StartElement)
+	start, ok = t.(xml.StartElement)
+	if !ok {
+		err = fmt.Errorf("commands: expected command payload, got %T", t)
+		return resp, nil, err
+	}
 	resp, err = respFromStart(start, respIQ)
 	if err != nil {
 		return resp, nil, err
